@@ -36,6 +36,7 @@ class M(Opaque):
 
 def cards():
     op = M()
+    op._real = "eko.io.runcards.OperatorCard"  # members not set here are the real card's properties
     op.init = (dag.sym("mu0"), 4)
     op.mugrid = [(Fraction(10), 5), (Fraction(2), 3), (Fraction(50), 5), (Fraction(3), 4)]
     op.mu2grid = [Fraction(100), Fraction(4), Fraction(2500), Fraction(9)]
@@ -43,6 +44,7 @@ def cards():
     op.xgrid.raw = Arr.from_nested([dag.sym("xa"), dag.sym("xb"), dag.sym("xc")])
     op.configs = M()
     th = M()
+    th._real = "eko.io.runcards.TheoryCard"
     th.order = (3, 0)
     th.couplings = M()
     th.couplings.ref = (dag.sym("mz"), 5)
@@ -159,6 +161,8 @@ def run(chk):
         pids = list(pe.get_global("eko.basis_rotation", "flavor_basis_pids"))
 
         class Eko(Opaque):
+            _real = "eko.io.struct.EKO"
+
             def __init__(self):
                 self.evolgrid = list(evolgrid)
 
